@@ -1,38 +1,14 @@
-// zinstr rewrites a scratch copy of rs/zerolog so that every source of
-// nondeterminism goes through the zsim runtime (see DESIGN.md §2.1).
+// zinstr rewrites a scratch copy of rs/zerolog (see package instr).
 //
 //	zinstr -root <scratch module root>
 package main
 
 import (
-	"bytes"
 	"flag"
 	"fmt"
-	"go/ast"
-	"go/format"
-	"go/parser"
-	"go/token"
 	"os"
-	"path/filepath"
-	"sort"
-	"strconv"
-	"strings"
-)
 
-const modPath = "github.com/rs/zerolog"
-
-var pkgDirs = []string{".", "log", "diode", "diode/internal/diodes", "hlog", "hlog/internal/mutil", "internal/json", "internal/cbor"}
-
-type siteFile struct {
-	file     string
-	from, to int
-}
-
-var (
-	nextSite  int
-	siteLines []int
-	siteFiles []siteFile
-	notes     []string
+	"verif/tools/instr"
 )
 
 func main() {
@@ -42,326 +18,10 @@ func main() {
 		fmt.Fprintln(os.Stderr, "usage: zinstr -root DIR")
 		os.Exit(2)
 	}
-	for _, d := range pkgDirs {
-		dir := filepath.Join(*root, d)
-		ents, err := os.ReadDir(dir)
-		if err != nil {
-			// a package that does not exist in this tree is not an error
-			continue
-		}
-		var names []string
-		for _, e := range ents {
-			n := e.Name()
-			if e.IsDir() || !strings.HasSuffix(n, ".go") || strings.HasSuffix(n, "_test.go") {
-				continue
-			}
-			names = append(names, n)
-		}
-		sort.Strings(names)
-		for _, n := range names {
-			rel := filepath.ToSlash(filepath.Join(d, n))
-			if err := instrument(filepath.Join(dir, n), rel); err != nil {
-				fmt.Fprintf(os.Stderr, "zinstr: %s: %v\n", rel, err)
-				os.Exit(2)
-			}
-		}
-	}
-	if err := writeSites(filepath.Join(*root, "zsim", "sites_gen.go")); err != nil {
+	notes, err := instr.Run(*root)
+	if err != nil {
 		fmt.Fprintln(os.Stderr, "zinstr:", err)
 		os.Exit(2)
 	}
-	for _, n := range notes {
-		fmt.Println("zinstr: note:", n)
-	}
-	fmt.Printf("zinstr: %d sites in %d files\n", nextSite, len(siteFiles))
-}
-
-func writeSites(path string) error {
-	var b bytes.Buffer
-	b.WriteString("// Code generated by zinstr. DO NOT EDIT.\n\npackage zsim\n\nfunc init() {\n")
-	fmt.Fprintf(&b, "\tNSites = %d\n\tSiteHits = make([]uint32, %d)\n", nextSite, nextSite)
-	b.WriteString("\tSiteFiles = []SiteFile{\n")
-	for _, f := range siteFiles {
-		fmt.Fprintf(&b, "\t\t{%q, %d, %d},\n", f.file, f.from, f.to)
-	}
-	b.WriteString("\t}\n\tSiteLines = []int32{")
-	for i, l := range siteLines {
-		if i%20 == 0 {
-			b.WriteString("\n\t\t")
-		}
-		fmt.Fprintf(&b, "%d, ", l)
-	}
-	b.WriteString("\n\t}\n}\n")
-	return os.WriteFile(path, b.Bytes(), 0o644)
-}
-
-func id(name string) *ast.Ident { return ast.NewIdent(name) }
-
-func zcall(fn string, args ...ast.Expr) *ast.CallExpr {
-	return &ast.CallExpr{Fun: &ast.SelectorExpr{X: id("zsim"), Sel: id(fn)}, Args: args}
-}
-
-func instrument(path, rel string) error {
-	src, err := os.ReadFile(path)
-	if err != nil {
-		return err
-	}
-	fset := token.NewFileSet()
-	f, err := parser.ParseFile(fset, path, src, parser.ParseComments)
-	if err != nil {
-		return err
-	}
-	// header: build constraints (everything else in comments is dropped)
-	var header []string
-	for _, line := range strings.Split(string(src), "\n") {
-		t := strings.TrimSpace(line)
-		if strings.HasPrefix(t, "package ") {
-			break
-		}
-		if strings.HasPrefix(t, "//go:build") || strings.HasPrefix(t, "// +build") {
-			header = append(header, t)
-		}
-	}
-	for _, cg := range f.Comments {
-		for _, c := range cg.List {
-			if strings.HasPrefix(c.Text, "//go:") && !strings.HasPrefix(c.Text, "//go:build") {
-				notes = append(notes, fmt.Sprintf("%s:%d: directive %q dropped", rel, fset.Position(c.Pos()).Line, c.Text))
-			}
-		}
-	}
-	f.Comments = nil
-	f.Doc = nil
-
-	// imports
-	timeName, osName := "", ""
-	for _, im := range f.Imports {
-		p, _ := strconv.Unquote(im.Path.Value)
-		switch p {
-		case "sync":
-			im.Path.Value = strconv.Quote(modPath + "/zsim/ssync")
-			if im.Name == nil {
-				im.Name = id("sync")
-			}
-		case "sync/atomic":
-			im.Path.Value = strconv.Quote(modPath + "/zsim/satomic")
-			if im.Name == nil {
-				im.Name = id("atomic")
-			}
-		case "time":
-			timeName = "time"
-			if im.Name != nil {
-				timeName = im.Name.Name
-			}
-		case "os":
-			osName = "os"
-			if im.Name != nil {
-				osName = im.Name.Name
-			}
-		}
-		im.Doc, im.Comment = nil, nil
-	}
-
-	usesZsim := false
-	// selector rewrites
-	ast.Inspect(f, func(n ast.Node) bool {
-		sel, ok := n.(*ast.SelectorExpr)
-		if !ok {
-			return true
-		}
-		x, ok := sel.X.(*ast.Ident)
-		if !ok || x.Obj != nil { // x.Obj != nil: resolved to a local object, not a package
-			return true
-		}
-		if timeName != "" && x.Name == timeName {
-			switch sel.Sel.Name {
-			case "Sleep", "Now", "Since":
-				x.Name = "zsim"
-				usesZsim = true
-			case "After", "NewTimer", "NewTicker", "Tick", "AfterFunc":
-				notes = append(notes, fmt.Sprintf("%s:%d: time.%s stays real (guarded by the watchdog)", rel, fset.Position(sel.Pos()).Line, sel.Sel.Name))
-			}
-		}
-		if osName != "" && x.Name == osName && sel.Sel.Name == "Exit" {
-			x.Name = "zsim"
-			usesZsim = true
-		}
-		return true
-	})
-
-	// statement lists
-	var lists []*[]ast.Stmt
-	skip := map[*ast.BlockStmt]bool{}
-	ast.Inspect(f, func(n ast.Node) bool {
-		switch b := n.(type) {
-		case *ast.SwitchStmt:
-			skip[b.Body] = true
-		case *ast.TypeSwitchStmt:
-			skip[b.Body] = true
-		}
-		switch b := n.(type) {
-		case *ast.BlockStmt:
-			if b != nil && !skip[b] {
-				lists = append(lists, &b.List)
-			}
-		case *ast.CaseClause:
-			lists = append(lists, &b.Body)
-		case *ast.CommClause:
-			lists = append(lists, &b.Body)
-		case *ast.SelectStmt:
-			skip[b.Body] = true
-			hasDefault := false
-			for _, c := range b.Body.List {
-				if cc, ok := c.(*ast.CommClause); ok && cc.Comm == nil {
-					hasDefault = true
-				}
-			}
-			if !hasDefault {
-				notes = append(notes, fmt.Sprintf("%s:%d: blocking select stays real (guarded by the watchdog)", rel, fset.Position(b.Pos()).Line))
-			}
-		case *ast.SendStmt:
-			notes = append(notes, fmt.Sprintf("%s:%d: channel send stays real", rel, fset.Position(b.Pos()).Line))
-		}
-		return true
-	})
-	from := nextSite
-	for _, lp := range lists {
-		old := *lp
-		out := make([]ast.Stmt, 0, 2*len(old))
-		for _, st := range old {
-			line := fset.Position(st.Pos()).Line
-			sid := nextSite
-			nextSite++
-			siteLines = append(siteLines, line)
-			out = append(out, &ast.ExprStmt{X: zcall("Y", &ast.BasicLit{Kind: token.INT, Value: strconv.Itoa(sid)})})
-			usesZsim = true
-			out = append(out, rewriteStmt(st, rel, fset))
-		}
-		*lp = out
-	}
-	if nextSite > from {
-		siteFiles = append(siteFiles, siteFile{rel, from, nextSite})
-	}
-
-	// imports: add zsim, drop time/os if they became unused
-	used := map[string]bool{}
-	ast.Inspect(f, func(n ast.Node) bool {
-		if sel, ok := n.(*ast.SelectorExpr); ok {
-			if x, ok := sel.X.(*ast.Ident); ok && x.Obj == nil {
-				used[x.Name] = true
-			}
-		}
-		return true
-	})
-	for _, d := range f.Decls {
-		gd, ok := d.(*ast.GenDecl)
-		if !ok || gd.Tok != token.IMPORT {
-			continue
-		}
-		gd.Doc = nil
-		var specs []ast.Spec
-		for _, sp := range gd.Specs {
-			im := sp.(*ast.ImportSpec)
-			p, _ := strconv.Unquote(im.Path.Value)
-			if (p == "time" && !used[timeName]) || (p == "os" && !used[osName]) {
-				continue
-			}
-			specs = append(specs, sp)
-		}
-		gd.Specs = specs
-		if len(specs) > 0 {
-			gd.Lparen = token.Pos(1) // force parenthesised form
-			gd.Rparen = token.Pos(1)
-		}
-	}
-	if usesZsim {
-		imp := &ast.GenDecl{Tok: token.IMPORT, Specs: []ast.Spec{&ast.ImportSpec{Name: id("zsim"), Path: &ast.BasicLit{Kind: token.STRING, Value: strconv.Quote(modPath + "/zsim")}}}}
-		f.Decls = append([]ast.Decl{imp}, f.Decls...)
-	}
-	// drop import decls that became empty
-	var decls []ast.Decl
-	for _, d := range f.Decls {
-		if gd, ok := d.(*ast.GenDecl); ok && gd.Tok == token.IMPORT && len(gd.Specs) == 0 {
-			continue
-		}
-		decls = append(decls, d)
-	}
-	f.Decls = decls
-	// strip remaining doc comments (they are not in f.Comments any more, but be tidy)
-	ast.Inspect(f, func(n ast.Node) bool {
-		switch x := n.(type) {
-		case *ast.FuncDecl:
-			x.Doc = nil
-		case *ast.GenDecl:
-			x.Doc = nil
-		case *ast.Field:
-			x.Doc, x.Comment = nil, nil
-		case *ast.TypeSpec:
-			x.Doc, x.Comment = nil, nil
-		case *ast.ValueSpec:
-			x.Doc, x.Comment = nil, nil
-		}
-		return true
-	})
-
-	var buf bytes.Buffer
-	for _, h := range header {
-		buf.WriteString(h + "\n")
-	}
-	if len(header) > 0 {
-		buf.WriteString("\n")
-	}
-	if err := format.Node(&buf, token.NewFileSet(), f); err != nil {
-		return err
-	}
-	return os.WriteFile(path, buf.Bytes(), 0o644)
-}
-
-// rewriteStmt replaces go statements and receive statements.
-func rewriteStmt(st ast.Stmt, rel string, fset *token.FileSet) ast.Stmt {
-	switch s := st.(type) {
-	case *ast.LabeledStmt:
-		s.Stmt = rewriteStmt(s.Stmt, rel, fset)
-		return s
-	case *ast.GoStmt:
-		call := s.Call
-		if fl, ok := call.Fun.(*ast.FuncLit); ok && len(call.Args) == 0 {
-			return &ast.ExprStmt{X: zcall("Go", fl)}
-		}
-		blk := &ast.BlockStmt{}
-		fn := id("zsimF")
-		blk.List = append(blk.List, &ast.AssignStmt{Lhs: []ast.Expr{fn}, Tok: token.DEFINE, Rhs: []ast.Expr{call.Fun}})
-		var args []ast.Expr
-		for i, a := range call.Args {
-			if _, ok := a.(*ast.BasicLit); ok {
-				args = append(args, a)
-				continue
-			}
-			v := id("zsimA" + strconv.Itoa(i))
-			blk.List = append(blk.List, &ast.AssignStmt{Lhs: []ast.Expr{v}, Tok: token.DEFINE, Rhs: []ast.Expr{a}})
-			args = append(args, v)
-		}
-		inner := &ast.CallExpr{Fun: fn, Args: args}
-		if call.Ellipsis.IsValid() {
-			inner.Ellipsis = token.Pos(1)
-		}
-		lit := &ast.FuncLit{Type: &ast.FuncType{Params: &ast.FieldList{}}, Body: &ast.BlockStmt{List: []ast.Stmt{&ast.ExprStmt{X: inner}}}}
-		blk.List = append(blk.List, &ast.ExprStmt{X: zcall("Go", lit)})
-		return blk
-	case *ast.ExprStmt:
-		if u, ok := s.X.(*ast.UnaryExpr); ok && u.Op == token.ARROW {
-			return &ast.ExprStmt{X: zcall("AwaitClosed", u.X)}
-		}
-		if p, ok := s.X.(*ast.ParenExpr); ok {
-			if u, ok := p.X.(*ast.UnaryExpr); ok && u.Op == token.ARROW {
-				return &ast.ExprStmt{X: zcall("AwaitClosed", u.X)}
-			}
-		}
-	case *ast.AssignStmt:
-		for _, r := range s.Rhs {
-			if u, ok := r.(*ast.UnaryExpr); ok && u.Op == token.ARROW {
-				notes = append(notes, fmt.Sprintf("%s:%d: channel receive with result stays real", rel, fset.Position(s.Pos()).Line))
-			}
-		}
-	}
-	return st
+	fmt.Print(notes)
 }
